@@ -15,7 +15,7 @@ Tie: the harness's Interrupt turns true at its k-th call and counts calls.
 Wall-clock numbers are evidence only, never a verdict (except the generous
 ratio used to recognise the known exponential-parse finding)."""
 import json
-from vlib import sx, Sym, parse_sx, cps
+from vlib import sx, Sym, parse_sx, try_parse, cps
 from eval_common import *
 import c09
 
@@ -219,6 +219,11 @@ def run_poll_minimums(c):
         cases.append(('dist_bop', 'd%d + d%d' % (f1, f2), 'd1 + d1',
                       [sx([Sym('polls-die'), 1, f1]), sx([Sym('polls-die'), 1, f2]), sx([Sym('polls-bop'), f1, f2])],
                       [sx([Sym('polls-die'), 1, 1]), sx([Sym('polls-die'), 1, 1]), sx([Sym('polls-bop'), 1, 1])]))
+    # digit expansions: one poll per digit step (n decimal places; Brent's cycle detection on 1/d "to float")
+    for d, n in ((7, 400), (97, 150), (9973, 60), (2 ** 70 + 1, 300)):
+        cases.append(('digits', '1/%d to %d dp' % (d, n), '1/%d to 10 dp' % d, [sx([Sym('polls-digits'), n])], [sx([Sym('polls-digits'), 10])]))
+    for d in (7, 97, 9973, 12, 28, 9901):
+        cases.append(('recurring', '1/%d to float' % d, '1/3 to float', [sx([Sym('polls-recurring'), d])], [sx([Sym('polls-recurring'), 3])]))
     il = c.impl('eval', [polls_req(0, [], x, -1) for cs in cases for x in (cs[1], cs[2])])
     ml = [m for cs in cases for m in cs[3] + cs[4]]
     mo = iter(c.model('eval', ml))
@@ -236,6 +241,71 @@ def run_poll_minimums(c):
             c.violation('fewer-polls-than-model', {'kind': 'impl-vs-model', 'loop': cs[0], 'long_input': cs[1], 'short_input': cs[2],
                                                   'impl_polls': [a[1], b[1]], 'model_minimum_difference': dm}, no_input=True)
     c.extra['poll_minimums'] = ['%s %s: impl %d - %d >= model %d' % t for t in table]
+
+
+def run_l1_polls(c):
+    """(a) level 1: BigUint::mul / divmod / one-bit lshift and rshift on raw limb vectors under a counting interrupt
+    (hook biguint_polls) against the model's counts -- a poll removed from mul_internal, divmod or lshift shows here
+    (at expression level it is masked by the polls of formatting)"""
+    r = c.rng
+    M = 2 ** 64
+
+    def limb():
+        k = r.random()
+        if k < 0.2: return 0
+        if k < 0.3: return M - 1
+        if k < 0.4: return 2 ** 63
+        if k < 0.5: return r.randint(1, 9)
+        return r.randint(0, M - 1)
+
+    def raw(maxlen=6, small_p=0.3):
+        if r.random() < small_p:
+            return 1, [limb()]
+        return 0, [limb() for _ in range(r.randint(1, maxlen))]
+
+    cases = []
+    n = 300 if c.tier == 'quick' else 5000
+    for _ in range(n):
+        sa, a = raw(); sb, b = raw()
+        cases.append(('mul', sa, a, sb, b))
+        cases.append(('lshift', sa, a, 1, [0]))
+        cases.append(('rshift', sa, a, 1, [0]))
+        # divmod: Small divisor below 2^62 (exact count), the early exits, division by two, and the general case (minimum only)
+        k = r.random()
+        if k < 0.5:
+            d = r.choice([3, 7, 10, 2 ** 32 + 1, 2 ** 62 - 1, r.randint(3, 2 ** 62 - 1)])
+            cases.append(('divmod', 0, [limb() for _ in range(r.randint(2, 6))][:-1] + [r.randint(1, M - 1)], 1, [d]))
+        elif k < 0.65:
+            cases.append(('divmod', sa, a, r.choice([0, 1]), [r.choice([1, 2])]))
+        elif k < 0.8:
+            cases.append(('divmod', sa, a, sa, list(a)))
+        else:
+            cases.append(('divmod', 0, [limb() for _ in range(r.randint(2, 5))] + [r.randint(1, M - 1)], 0, [limb(), r.randint(1, M - 1)]))
+    lines = [sx([Sym('bigpolls'), op, sa, a, sb, b]) for op, sa, a, sb, b in cases]
+    mlines = [sx([Sym('l1-polls'), op, sa, a, sb, b]) for op, sa, a, sb, b in cases]
+    io = c.impl('eval', lines)
+    mo = c.model('eval', mlines)
+    exact = 0
+    for (op, sa, a, sb, b), i, m in zip(cases, io, mo):
+        rep = {'op': op, 'a_small': sa, 'a_limbs': a, 'b_small': sb, 'b_limbs': b}
+        c.note_case('l1:%s:%s:%s:%s:%s' % (op, sa, a, sb, b), True, 'l1-' + op)
+        ip = try_parse(i)
+        if not isinstance(ip, list) or ip[0] != b'ok':
+            if isinstance(ip, list) and ip[0] == b'err':
+                continue        # division by zero and the like
+            c.violation('l1-op-crashed', dict(rep, kind='impl-crash', impl=i[:120])); continue
+        mp = parse_sx(m)
+        if mp[0] == b'some':
+            want = mp[1]
+            exact += 1
+        else:
+            want = len(a)       # long division polls at least once per limb of the dividend
+        if ip[1] < want:
+            c.violation('fewer-polls-than-model', dict(rep, kind='impl-vs-model', impl_polls=ip[1], model_polls=want, exact_model=(mp[0] == b'some')), no_input=True)
+        elif mp[0] == b'some' and ip[1] != want:
+            c.repr_drift += 1
+    c.extra['l1_poll_cases'] = len(cases)
+    c.extra['l1_poll_cases_with_exact_model'] = exact
 
 
 def run_unpolled_replays(c):
@@ -331,6 +401,7 @@ def check(c):
     run_interrupt_sweeps(c)
     run_general_sweeps(c)
     run_poll_minimums(c)
+    run_l1_polls(c)
     run_unpolled_replays(c)
     run_preview_sweeps(c)
     c.extra['left_to_runtime'] = ('wall-clock time between polls and after the firing poll; that the skeletons of Cost.v describe the loops (tied by poll counts only); '
